@@ -468,7 +468,7 @@ theorem spec2_func (hd : E .divzero) (cfg : CheckCfg) (c : SCfg) (hw : WorldConf
         apply smok_evalOKV
         intro ctx hctx
         show SMOK E (fun v => ValOfV v V)
-          (eval c ctx (.func { m with kd := OTy.kind (some out) } name args' (fastCall fn isMethod)))
+          (eval c ctx (.func { m with kd := OTy.kind (some out) } name args' (fastCall cfg.dt fn isMethod)))
         simp only [eval]
         refine smok_bind (evr ctx hctx) ?_
         intro vs ⟨hlen, hconf⟩
